@@ -1,4 +1,93 @@
-import CM.Model.Denote
+/-
+  C05 — Equal node hash implies equal computation (no false cache hit).
+
+  `decode h` reads a node hash back as the computation it stands for: the leaf value, or the user function applied
+  to the decoded argument hashes with positional and keyword arguments split as `FunctionEdge.evaluate` splits them,
+  or the tuple of a product.  On *plain* graphs — no Silent arguments, no CheckIds, no user function called
+  "tuple", pass-through edges with a parent — the value of **every** node whose hash is `h` is `decode h`
+  (`hash_determines_value`, strong induction over the graph, one case per edge class: functions, identities,
+  constants, products, caches, barriers, hash-by-value and impure wrappers, the three switch edges).  Hence two
+  evaluations — same or different nodes, inputs, pipelines — that receive the same node hash have the same value
+  (`equal_hash_equal_value`), i.e. any change that can change a value changes the hash.
+
+  The exclusions are exactly where the property fails or is exempt by design, shown on the model:
+    * Silent arguments are exempt by design, but `silent_collides_with_none` (known finding F9): a Silent position is
+      hashed as `LeafHash(None)` and collides with a real `None` argument of the non-silent function;
+    * `ram_keys_not_faithful` (known finding F3): RAM tables compare keys with Python `==`, under which the hashes of
+      inputs `1` and `True` are equal although the values differ;
+    * CheckIds is hash-transparent but decides whether a value exists (known finding F10, `CM.C04.f10_in_model`).
+-/
+import CM.Props.C01
 namespace CM.C05
-theorem placeholder : True := trivial
+open CM
+
+/-- **A node hash determines the value.** -/
+theorem hash_determines_value (g : Graph) (d : DenCfg) (pl : Plain g d) (n : Nat) (h : NHash) (p : Val)
+    (hh : (den g d n).h = .ok (h, p)) : (den g d n).v = .ok (decode h) :=
+  den_value_of_hash g d pl n h p hh
+
+/-- **Equal node hash, equal computation**: in the same or in different pipelines, for the same or different inputs. -/
+theorem equal_hash_equal_value (g : Graph) (d : DenCfg) (pl : Plain g d) (g' : Graph) (d' : DenCfg) (pl' : Plain g' d')
+    (n n' : Nat) (h : NHash) (p p' : Val) (h1 : (den g d n).h = .ok (h, p)) (h2 : (den g' d' n').h = .ok (h, p')) :
+    (den g d n).v = (den g' d' n').v :=
+  CM.equal_hash_equal_value g d pl g' d' pl' n n' h p p' h1 h2
+
+/-- the same for the hash and value of the compiled function's output -/
+theorem equal_output_hash (g : Graph) (d : DenCfg) (pl : Plain g d) (g' : Graph) (d' : DenCfg) (pl' : Plain g' d')
+    (ho : g.output < g.nodes.length) (ho' : g'.output < g'.nodes.length) (h : NHash)
+    (h1 : hden g d = .ok h) (h2 : hden g' d' = .ok h) : vden g d = vden g' d' := by
+  rw [hden_eq g d ho] at h1
+  rw [hden_eq g' d' ho'] at h2
+  rw [vden_eq g d ho, vden_eq g' d' ho']
+  cases hh1 : (den g d g.output).h with
+  | error e => simp [hh1, Except.map] at h1
+  | ok x1 =>
+    cases hh2 : (den g' d' g'.output).h with
+    | error e => simp [hh2, Except.map] at h2
+    | ok x2 =>
+      obtain ⟨a1, p1⟩ := x1
+      obtain ⟨a2, p2⟩ := x2
+      simp only [hh1, Except.map] at h1
+      simp only [hh2, Except.map] at h2
+      injection h1 with h1; injection h2 with h2
+      subst h1; subst h2
+      exact CM.equal_hash_equal_value g d pl g' d' pl' _ _ _ p1 p2 hh1 hh2
+
+/-- hence, for stores that compare keys structurally (disk), the hypothesis of the cache theorem (C04) holds -/
+theorem faithful_for_exact_keys (F : Fam) (hF : ∀ g d, F g d → Plain g d) : Faithful F true := faithful_exact F hF
+
+/-! ### non-vacuity and the boundary of the theorem -/
+
+def fnGraph (sil : List Nat) : Graph :=
+  { nodes := [⟨"x", none, []⟩, ⟨"y", some (.function "f" [] sil), [0]⟩], inputs := [0], output := 1 }
+
+def cfg (v : Val) : DenCfg := { env := fun s => if s = "x" then some v else none }
+
+example : Plain (fnGraph []) (cfg (.int 5)) := plainB_sound _ _ (by decide +kernel)
+example : Plain C01.demo (denCfgOf C01.demoEnv { impureFns := ["r"] }) := plainB_sound _ _ (by decide +kernel)
+
+/-- different inputs, different hashes (the contrapositive at work) -/
+example : hden (fnGraph []) (cfg (.int 5)) = .ok (.apply "f" [.leaf (.int 5)] []) ∧
+    hden (fnGraph []) (cfg (.int 6)) = .ok (.apply "f" [.leaf (.int 6)] []) := ⟨rfl, rfl⟩
+
+/-- **F9**: `f` with a Silent first argument on input 5, and plain `f` on input `None`: equal hashes, different values -/
+theorem silent_collides_with_none :
+    hden (fnGraph [0]) (cfg (.int 5)) = hden (fnGraph []) (cfg .none) ∧
+    vden (fnGraph [0]) (cfg (.int 5)) = .ok (.app "f" [.int 5] [] []) ∧
+    vden (fnGraph []) (cfg .none) = .ok (.app "f" [.none] [] []) := ⟨rfl, rfl, rfl⟩
+
+/-- **F3**: under Python `==` on keys (RAM tables) the hashes of the inputs `1` and `True` are equal keys, the values
+differ: no family containing both evaluations is faithful for RAM stores -/
+theorem ram_keys_not_faithful (F : Fam) (h1 : F (fnGraph []) (cfg (.int 1))) (h2 : F (fnGraph []) (cfg (.bool true))) :
+    ¬ Faithful F false := by
+  intro hf
+  have := hf (.apply "f" [.leaf (.int 1)] []) (fnGraph []) (cfg (.int 1)) 1 (.apply "f" [.leaf (.int 1)] []) .none
+    (.app "f" [.int 1] [] []) (fnGraph []) (cfg (.bool true)) 1 (.apply "f" [.leaf (.bool true)] []) .none h1 h2 rfl rfl rfl rfl rfl
+  have hv : (den (fnGraph []) (cfg (.bool true)) 1).v = .ok (.app "f" [.bool true] [] []) := rfl
+  rw [hv] at this
+  injection this with this
+  injection this with _ this
+  injection this with this
+  cases this
+
 end CM.C05
